@@ -83,6 +83,7 @@ def iter_cases(draw, max_n=80):
             "profile_seed": draw(st.integers(0, 10**6)), "path": draw(st.sampled_from(["mem", "cache", "file"])),
             "ll_shift": draw(st.sampled_from([0.0, 0.0, 0.0, -3000.0, 2500.0, -1e5])),
             "lib_history": draw(st.sampled_from([None, None, None, None, "pack_units", "setitem", "inplace"])),
+            "lib_dtype": draw(st.sampled_from([None, None, None, "P_f4", "all_f4"])),
             "n_linear": draw(st.sampled_from([1, 1, 2, 3])), "randomize": draw(st.booleans()),
             "n_batches": draw(st.one_of(st.none(), st.integers(1, 6))), "pool_size": draw(st.integers(1, 3)),
             "rng_seed": draw(st.integers(0, 2**32 - 1)), "steer": None, "steer_seed": 0,
